@@ -370,7 +370,7 @@ func ruleC25(c *Ctx) {
 				}
 				// no condition on the output index
 				for ft := range have {
-					if strings.Contains(ft, "?") && !strings.Contains(ft, "call:builtin:len") {
+					if strings.Contains(ft, "?") && !strings.Contains(ft, "@") && !strings.Contains(ft, "call:builtin:len") {
 						bad = "coinbase maturity restricted by an extra condition: " + ft
 					}
 				}
